@@ -1232,7 +1232,80 @@ async def start_value_and_failed_starts():
     return ok, f"{out}"
 
 
-SCENARIOS = {f.__name__: f for f in (optional_injection_is_the_optional_lookup, start_value_and_failed_starts, hard_coded_kwargs_reach_the_child_as_they_are,
+async def generic_alias_types_are_found_by_every_lookup():
+    """C02: all lookup paths agree on the visible set -- also for a resource registered under a parametrised generic
+    type (list[int], dict[str, int]): such type objects are EQUAL but not identical from one evaluation of the
+    expression to the next"""
+    out = {}
+    val = [1, 2]
+    made = []
+
+    def fac():
+        made.append(1)
+        return {"k": len(made)}
+    async with Context() as root:
+        root.add_resource(val, "v", types=[list[int]])
+        root.add_resource_factory(fac, "f", types=[dict[str, int]])
+        async with Context() as child:
+            for label, ctx in (("root", root), ("child", child)):
+                out[label + ".nowait"] = ctx.get_resource_nowait(list[int], "v", optional=True) is val
+                out[label + ".await"] = (await ctx.get_resource(list[int], "v", optional=True)) is val
+                out[label + ".all"] = dict(ctx.get_resources(list[int])) == {"v": val}
+                out[label + ".other"] = ctx.get_resource_nowait(list[str], "v", optional=True) is None \
+                    and dict(ctx.get_resources(list[str])) == {}
+            g = child.get_resource_nowait(dict[str, int], "f", optional=True)
+            out["gen"] = g == {"k": 1}
+            out["gen.await"] = (await child.get_resource(dict[str, int], "f", optional=True)) is g
+            out["gen.all"] = [v for v in child.get_resources(dict[str, int]).values()] == [g] and g is not None
+            out["gen.root_untouched"] = dict(root.get_resources(dict[str, int])) == {}
+            out["calls"] = len(made) == 1
+    bad = sorted(k for k, v in out.items() if not v)
+    return not bad, f"disagreeing: {bad}"
+
+
+async def every_registration_of_a_component_is_torn_down():
+    """C05 (and C01): every teardown callback the components register belongs to the context that was current when
+    start_component was called and runs when that context is left -- once PER REGISTRATION, also when several
+    registrations are of callables that compare equal (the same bound method of a shared pool, registered by
+    prepare() and start() and by two components)"""
+    from asphalt.core import Component, start_component
+
+    class Pool:
+        def __init__(self):
+            self.leases, self.released = 0, 0
+
+        def lease(self):
+            self.leases += 1
+            current_context().add_teardown_callback(self.release)
+
+        def release(self):
+            self.released += 1
+    pool = Pool()
+    log = []
+
+    class Leaf(Component):
+        async def prepare(self):
+            pool.lease()
+
+        async def start(self):
+            pool.lease()
+            current_context().add_teardown_callback(lambda: log.append("leaf"))
+
+    class Root(Component):
+        def __init__(self):
+            self.add_component("a", Leaf)
+            self.add_component("b", Leaf)
+
+        async def start(self):
+            pool.lease()
+    async with Context():
+        await start_component(Root)
+        during = (pool.leases, pool.released)
+    ok = during == (5, 0) and pool.released == 5 and log == ["leaf", "leaf"]
+    return ok, f"leases={pool.leases}, released during the block={during[1]}, released after it={pool.released}, others={log}"
+
+
+SCENARIOS = {f.__name__: f for f in (every_registration_of_a_component_is_torn_down, generic_alias_types_are_found_by_every_lookup, optional_injection_is_the_optional_lookup, start_value_and_failed_starts, hard_coded_kwargs_reach_the_child_as_they_are,
                                      overriding_signal_has_its_own_event_class, second_half_runs_at_the_outer_teardown, rejected_add_registers_no_callback,
                                      wait_finished_means_completely_finished, dead_iterator_inside_its_block_disturbs_nobody,
                                      racing_lookups_generate_once, failing_factory_leaves_the_current_context_alone,
